@@ -327,8 +327,28 @@ func c14ParseReports(text string) []c14Report {
 				}
 				switch {
 				case strings.HasSuffix(path, "utils/rw_counter.go"):
-					// helper object: the receiver type identifies the shared counter
+					// helper object: the receiver type identifies the shared counter ...
 					found = file + ":" + strings.SplitN(c, ".", 2)[0]
+					// ... unless the counter is reached from INSIDE the thrift library (the counter is the
+					// THeaderTransport's underlying writer/reader): then the unit in question is the one
+					// THeaderProtocol object that tBinaryProto / tStructProto share between Pack and Unpack,
+					// and the access is attributed to the protocol's entry point like any other access
+					// inside that object. A direct call from the protocol package (e.g. Unpack calling
+					// WriteCounter.Zero itself, the defect fixed by a5c585e) keeps the counter signature.
+					viaLib := false
+					for k := j + 2; k+1 < len(lines) && strings.TrimSpace(lines[k]) != ""; k += 2 {
+						fn2 := strings.TrimSpace(lines[k])
+						path2 := strings.SplitN(strings.TrimSpace(lines[k+1]), ":", 2)[0]
+						if strings.Contains(fn2, "apache/thrift") {
+							viaLib = true
+							continue
+						}
+						if viaLib && strings.Contains(path2, "/proto/thriftproto/") {
+							if c2, ok2 := c14Canon(fn2); ok2 {
+								found = filepath.Base(path2) + ":" + c2
+							}
+						}
+					}
 				case strings.Contains(path, "/proto/"):
 					// protocol implementations: climb to the outermost frame of the protocol package
 					// (its Pack / Unpack entry), the unit whose concurrent use is in question
